@@ -52,6 +52,10 @@ func main() {
 		os.Exit(cmdCheck(os.Args[2:]))
 	case "replay":
 		os.Exit(cmdReplay(os.Args[2:]))
+	case "worker":
+		os.Exit(cmdWorker(os.Args[2:]))
+	case "worker-replay":
+		os.Exit(cmdWorkerReplay(os.Args[2:]))
 	case "list":
 		for _, id := range harness.IDs() {
 			fmt.Println(id)
@@ -112,6 +116,7 @@ func cmdCheck(args []string) int {
 	viols, counts := col.All()
 	// A violation is only believed after it has been re-executed twice from its recorded case with identical result.
 	var confirmed []engine.Violation
+	unconfirmed := 0
 	for _, v := range viols {
 		if v.Case == nil {
 			engine.Fatalf("violation %s was reported without a replayable case", v.Sig)
@@ -138,7 +143,11 @@ func cmdCheck(args []string) int {
 			}
 		}
 		if !ok {
-			engine.Fatalf("violation %s did not reproduce from its recorded case (nondeterminism in harness): %s", v.Sig, raw)
+			// Not believed: the case is not a deterministic function of its recorded choices (the code under
+			// test shares state between the instances the worker pool runs in parallel, or the harness is at fault).
+			fmt.Printf("UNCONFIRMED property=%s signature=%s: did not reproduce from its recorded case and is not counted: %s\n", id, v.Sig, raw)
+			unconfirmed++
+			continue
 		}
 		confirmed = append(confirmed, v)
 	}
@@ -203,7 +212,9 @@ func cmdCheck(args []string) int {
 		"pruned_after_violation":        st.Pruned,
 		"known_findings_matched":        matched,
 		"violation_signatures":          counts,
+		"violations_not_reproduced":     unconfirmed,
 		"workers":                       poolWorkers(*workers),
+		"slowest_shards":                res.Slowest,
 	}
 	if st.States == 0 {
 		cov["states_note"] = "this check does not hash abstract states; states is reported as 1"
@@ -240,6 +251,10 @@ func cmdCheck(args []string) int {
 	}
 	fmt.Printf("%s tier=%s execs=%d transitions=%d states=%d outcomes=%d nontrivial=%d shards=%d/%d exhaustive=%v violations=%d known=%d wall=%.1fs\n",
 		id, *tier, st.Execs, st.Transitions, st.States, st.Outcomes, st.Nontrivial, res.ShardsDone, res.ShardsTotal, exhaustive, nviol, len(matched), time.Since(start).Seconds())
+	if exit == 0 && unconfirmed > 0 {
+		fmt.Fprintf(os.Stderr, "lzmc: internal error: %d violation(s) were seen during the exploration but none reproduced from its recorded case\n", unconfirmed)
+		exit = 2
+	}
 	var keys []string
 	for k := range st.Extra {
 		keys = append(keys, k)
@@ -310,4 +325,57 @@ func cmdReplay(args []string) int {
 		fmt.Printf("VIOLATION property=%s replay=%s\n  signature: %s\n  %s\n", v.Property, args[0], v.Sig, v.Msg)
 	}
 	return 1
+}
+
+// cmdWorker runs one shard of a check in this process and prints its result
+// as JSON (used to run the loop-level shards in the yield-instrumented build).
+func cmdWorker(args []string) int {
+	if len(args) < 2 {
+		usage()
+	}
+	chk := harness.Registry[args[0]]
+	if chk == nil {
+		engine.Fatalf("unknown check %q", args[0])
+	}
+	tier := "quick"
+	for i := 2; i+1 < len(args); i++ {
+		if args[i] == "--tier" {
+			tier = args[i+1]
+		}
+	}
+	for _, sh := range chk.Shards(tier) {
+		if sh.Name != args[1] {
+			continue
+		}
+		var st engine.Stats
+		col := engine.NewCollector()
+		sh.Run(&st, col)
+		vs, counts := col.All()
+		b, err := json.Marshal(harness.WorkerResult{Stats: st, Violations: vs, Counts: counts})
+		if err != nil {
+			engine.Fatalf("%v", err)
+		}
+		os.Stdout.Write(b)
+		return 0
+	}
+	engine.Fatalf("check %s has no shard %q", args[0], args[1])
+	return 2
+}
+
+func cmdWorkerReplay(args []string) int {
+	if len(args) < 2 {
+		usage()
+	}
+	chk := harness.Registry[args[0]]
+	if chk == nil {
+		engine.Fatalf("unknown check %q", args[0])
+	}
+	col := engine.NewCollector()
+	if err := safeReplay(chk, json.RawMessage(args[1]), col); err != nil {
+		engine.Fatalf("%v", err)
+	}
+	vs, counts := col.All()
+	b, _ := json.Marshal(harness.WorkerResult{Violations: vs, Counts: counts})
+	os.Stdout.Write(b)
+	return 0
 }
